@@ -1,0 +1,171 @@
+//go:build verif
+
+package ucfg
+
+import (
+	"fmt"
+	"reflect"
+	"sort"
+	"sync/atomic"
+	"unsafe"
+)
+
+// Instrumentation used by the runtime monitors under /verif. Only compiled
+// with the verif build tag.
+
+// VerifHook receives monitor events. kind is one of "resolve", "lexer",
+// "grow", "keyorder", "yield".
+type VerifHook func(kind, site, s string, a, b int)
+
+var verifHook atomic.Value // VerifHook
+
+// VerifSetHook installs (or with nil removes) the event observer.
+func VerifSetHook(h VerifHook) {
+	if h == nil {
+		verifHook.Store(VerifHook(func(string, string, string, int, int) {}))
+		return
+	}
+	verifHook.Store(h)
+}
+
+func verifEmit(kind, site, s string, a, b int) {
+	if h, ok := verifHook.Load().(VerifHook); ok && h != nil {
+		h(kind, site, s, a, b)
+	}
+}
+
+func verifResolve(r *reference) { verifEmit("resolve", "resolveRef", r.Path.String(), 0, 0) }
+
+func verifLexer(start bool) {
+	if start {
+		verifEmit("lexer", "start", "", 0, 0)
+	} else {
+		verifEmit("lexer", "exit", "", 0, 0)
+	}
+}
+
+func verifGrow(oldLen, newLen int) { verifEmit("grow", "setAt", "", oldLen, newLen) }
+
+func verifKeyOrder(site, key string) { verifEmit("keyorder", site, key, 0, 0) }
+
+func verifKeyOrderRV(site string, k reflect.Value) {
+	k = chaseValueInterfaces(k)
+	if k.Kind() == reflect.String {
+		verifEmit("keyorder", site, k.String(), 0, 0)
+	}
+}
+
+func verifYield(site string) { verifEmit("yield", site, "", 0, 0) }
+
+// VerifNode describes one node of a Config tree as it is stored, without
+// evaluating anything.
+type VerifNode struct {
+	Walk   string  // path of keys/indices actually followed from the walk root
+	Kind   string  // sub bool int uint float string nil dyn
+	Addr   uintptr // *Config for sub nodes, the value cell otherwise
+	Fields uintptr // address of the fields struct (sub nodes)
+	Field  string  // stored context field name
+	Parent uintptr // *Config stored as context parent (0 if none)
+	Holder uintptr // *Config that actually holds the node (0 for the walk root)
+	Text   string  // primitive value or unresolved expression text
+	Source string  // metadata source
+	NDict  int
+	NArr   int
+	HasArr bool // array part is non-nil
+}
+
+// VerifWalk lists all nodes reachable from c in deterministic order.
+func VerifWalk(c *Config) []VerifNode {
+	var out []VerifNode
+	verifWalkSub(&out, c, "", 0, 0)
+	return out
+}
+
+func verifParentAddr(ctx context) uintptr {
+	if ctx.parent == nil {
+		return 0
+	}
+	if sub, ok := ctx.parent.(cfgSub); ok {
+		return uintptr(unsafe.Pointer(sub.c))
+	}
+	return 1 // parent is not a sub config
+}
+
+func verifSource(m *Meta) string {
+	if m == nil {
+		return ""
+	}
+	return m.Source
+}
+
+func verifWalkSub(out *[]VerifNode, c *Config, walk string, holder uintptr, depth int) {
+	n := VerifNode{
+		Walk: walk, Kind: "sub", Addr: uintptr(unsafe.Pointer(c)), Field: c.ctx.field,
+		Parent: verifParentAddr(c.ctx), Holder: holder, Source: verifSource(c.metadata),
+	}
+	if c.fields != nil {
+		n.Fields = uintptr(unsafe.Pointer(c.fields))
+		n.NDict = len(c.fields.d)
+		n.NArr = len(c.fields.a)
+		n.HasArr = c.fields.a != nil
+	}
+	*out = append(*out, n)
+	if c.fields == nil || depth > 64 {
+		return
+	}
+	keys := make([]string, 0, len(c.fields.d))
+	for k := range c.fields.d {
+		keys = append(keys, k)
+	}
+	sort.Strings(keys)
+	self := uintptr(unsafe.Pointer(c))
+	join := func(k string) string {
+		if walk == "" {
+			return k
+		}
+		return walk + "." + k
+	}
+	for _, k := range keys {
+		verifWalkValue(out, c.fields.d[k], join(k), self, depth+1)
+	}
+	for i, v := range c.fields.a {
+		verifWalkValue(out, v, join(fmt.Sprintf("%d", i)), self, depth+1)
+	}
+}
+
+func verifWalkValue(out *[]VerifNode, v value, walk string, holder uintptr, depth int) {
+	if v == nil {
+		*out = append(*out, VerifNode{Walk: walk, Kind: "<nil-interface>", Holder: holder})
+		return
+	}
+	if sub, ok := v.(cfgSub); ok {
+		verifWalkSub(out, sub.c, walk, holder, depth)
+		return
+	}
+	ctx := v.Context()
+	n := VerifNode{Walk: walk, Field: ctx.field, Parent: verifParentAddr(ctx), Holder: holder, Source: verifSource(v.meta())}
+	switch x := v.(type) {
+	case *cfgBool:
+		n.Kind, n.Text, n.Addr = "bool", fmt.Sprint(x.b), uintptr(unsafe.Pointer(x))
+	case *cfgInt:
+		n.Kind, n.Text, n.Addr = "int", fmt.Sprint(x.i), uintptr(unsafe.Pointer(x))
+	case *cfgUint:
+		n.Kind, n.Text, n.Addr = "uint", fmt.Sprint(x.u), uintptr(unsafe.Pointer(x))
+	case *cfgFloat:
+		n.Kind, n.Text, n.Addr = "float", fmt.Sprint(x.f), uintptr(unsafe.Pointer(x))
+	case *cfgString:
+		n.Kind, n.Text, n.Addr = "string", x.s, uintptr(unsafe.Pointer(x))
+	case *cfgNil:
+		n.Kind, n.Addr = "nil", uintptr(unsafe.Pointer(x))
+	case *cfgDynamic:
+		n.Kind, n.Addr = "dyn", uintptr(unsafe.Pointer(x))
+		if sp, ok := x.dyn.(spliceDynValue); ok {
+			n.Text = fmt.Sprintf("splice%v", sp.e)
+		} else {
+			n.Text = x.dyn.String()
+		}
+	default:
+		n.Kind = fmt.Sprintf("%T", v)
+	}
+	*out = append(*out, n)
+}
